@@ -134,7 +134,7 @@ class Qasm3SubroutineProcessor:
         actual_arg_value = Qasm3ExprEvaluator.evaluate_expression(actual_arg)[0]
 
         # save this value to be updated later in scope
-        return Variable(
+        formal_var = Variable(
             name=formal_arg.name.name,
             base_type=formal_arg.type,
             base_size=Qasm3ExprEvaluator.evaluate_expression(formal_arg.type.size)[0],
@@ -142,6 +142,13 @@ class Qasm3SubroutineProcessor:
             value=actual_arg_value,
             is_constant=False,
         )
+        # the argument is assigned to the formal: it is converted to (and range checked
+        # against) the declared type like every other assignment
+        if formal_var.base_size is not None:
+            formal_var.value = Qasm3Validator.validate_variable_assignment_value(
+                formal_var, actual_arg_value
+            )
+        return formal_var
 
     @classmethod  # pylint: disable-next=too-many-arguments,too-many-locals,too-many-branches
     def _process_classical_arg_by_reference(
